@@ -4,6 +4,7 @@ theorems Properties/C02.v (incl. generated-table obligations), correspondence: i
 against the writer model and against spec_parse / stream_wf."""
 import json
 from vlib import *
+from props.kernelcommon import kernel_tie_leg
 from props.gdscommon import *
 
 HARNESS_BINS = ["c01"]
@@ -57,6 +58,7 @@ def evaluate(chk, libs, tag):
 
 def run(chk, replay=None):
     chk.proof_leg(MODEL_TARGETS, "Properties/C02.v", PROOF_FILES, "Properties.C02")
+    kernel_tie_leg(chk, "gds_write")      # trait Encode (library -> records) generated from gds21/src/write.rs = flatten_lib of the writer model (Properties/KernelsGdsCodec.v)
     chk.assumptions += [
         "GdsSpec.v is a faithful transcription of the GDSII stream format manual (record numbers, data types, grammar); cross-checked on foreign-written files in C03",
         "the double denoted by an eight-byte real / the reference encoding of a double are those of C15 (gds_decode proved correctly rounded, gds_spec_encode)",
